@@ -51,6 +51,62 @@ def constant_programs(rng, n):
     return out
 
 
+# ---- identifiers: every name the `ident` rule admits and the keyword list does not reserve is an ordinary variable /
+# function / parameter / counter name, also when it BEGINS like a keyword or a literal (`constant`, `nil_count`,
+# `assert_pos`, `breakfast`, `B1x`).  A name that IS a literal (`B1` = the bigint literal 1) may be refused with a
+# diagnostic; it may never be accepted and then silently read back as the literal.
+NAME_GROUPS = [
+    ("bigint-literal-shape", ["B1", "B52", "B0x1F", "B1_000"]),
+    ("bigint-literal-prefix", ["B1x", "B2_", "B0xZ"]),
+    ("assignment-flag-prefix", ["constant", "consts", "exported", "modify_count", "constructor_", "constructed"]),
+    ("import-prefix", ["important", "imports"]),
+    ("nil-prefix", ["nil_count", "nilx", "nil1"]),
+    ("assert-prefix", ["assert_pos", "asserted"]),
+    ("break-prefix", ["breakfast", "break_"]),
+    ("continue-prefix", ["continue_all", "continues"]),
+    ("keyword-prefix", ["iffy", "whiled", "fromage", "toto", "through_", "stepper", "printer", "returned", "classy", "typed",
+                        "typeofx", "fnord", "trueish", "falsey", "selfish", "getter", "or_", "mapper", "elsewhere", "is_", "not_",
+                        "Bx", "b1", "elsex", "steps"]),
+]
+NAME_FORMS = [
+    ("variable", "{n} = 5\nprint {n}\n{n} = {n} + 1\nprint {n} * 2\nassert {n} == 6\n", ["5", "12"]),
+    ("call-statement", "{n} = fn(k: int) -> int {{\n  print k\n  return k\n}}\n{n}(3)\nprint {n}(4) + 1\n", ["3", "4", "5"]),
+    ("parameter", "f = fn({n}: int) -> int {{\n  if {n} > 0 {{\n    return {n} + 1\n  }}\n  return {n}\n}}\nprint f(2)\n", ["3"]),
+    ("counter", "from 0 to 2, {n} {{\n  print {n}\n}}\n", ["0", "1"]),
+    ("call-in-loop", "{n} = fn() {{\n  print 7\n}}\nfrom 0 to 2 {{\n  {n}()\n}}\nw = 0\nwhile w < 1 {{\n  w = w + 1\n  {n}()\n}}\n", ["7", "7", "7"]),
+    ("condition", "{n} = true\nif {n} {{\n  print 1\n}}\nwhile {n} {{\n  {n} = false\n}}\nprint {n}\n", ["1", "false"]),
+    ("loop-bound", "{n} = 2\nfrom 0 to {n} {{\n  print 9\n}}\nfrom {n} through {n} step {n} {{\n  print 8\n}}\n", ["9", "9", "8"]),
+    ("recursion", "{n} = fn(k: int) -> int {{\n  if k == 0 {{\n    return 0\n  }}\n  return self(k - 1) + 2\n}}\nprint {n}(3)\n", ["6"]),
+    ("captured", "{n} = 1\ng = fn() -> int {{\n  modify {n} = {n} + 1\n  return {n}\n}}\nprint g()\nprint {n}\n", ["2", "2"]),
+]
+
+
+def name_programs():
+    out = []
+    for group, names in NAME_GROUPS:
+        for n in names:
+            for form, tmpl, exp in NAME_FORMS:
+                out.append((group, n, form, tmpl.format(n=n), exp))
+    return out
+
+
+# ---- string literals: `\\` and `\"` are the escapes of a backslash and of a quote wherever they stand in the literal,
+# also as its LAST character(s); the literal ends at the first quote that is not escaped
+STRING_VALUES = ["\\", "end\\", "C:\\dir\\", "\\\\", "a\\b", "q\"", "\"", "\\\"", "a\"\\", "x y\\", "\u00e9\\", "\\ \\", ""]
+
+
+def string_programs():
+    out = []
+    for v in STRING_VALUES:
+        lit = '"%s"' % v.replace("\\", "\\\\").replace('"', '\\"')
+        out.append(("print", "print %s\nprint \"after\"\n" % lit, [v, "after"]))
+        out.append(("two-on-a-line", "print %s + \"x\" + %s\n" % (lit, lit), [v + "x" + v]))
+        out.append(("variable", "s = %s\nt = s + \"|\" + s\nprint t\nprint s == %s\n" % (lit, lit), [v + "|" + v, "true"]))
+        out.append(("argument", "f = fn(a: str, b: str) -> str {\n  return a + %s + b\n}\nprint f(%s, \"z\")\n" % (lit, lit), [v + v + "z"]))
+        out.append(("condition", "if %s == \"other\" {\n  print \"eq\"\n} else {\n  print \"ne\"\n}\n" % lit, ["ne"]))
+    return out
+
+
 def run(ctx):
     ok = core.coq_props(ctx, "Props/C01.v")
     binary = core.build_repo()
@@ -88,8 +144,42 @@ def run(ctx):
         if r["status"] == "rejected" and r["proj"].get("kind") == "skeleton":
             ctx.report("skeleton-rejected", "a skeleton program is rejected by the compiler: %s" % r.get("stderr", "")[-300:],
                        {"project": coretie.slim(r["proj"])}, found_input=False)
+    # a generated program is a well-typed program of the core language: the compiler has to accept it
+    for r in results:
+        if r["status"] == "rejected" and r["proj"].get("kind") != "skeleton":
+            ctx.report("valid-program-rejected", "a generated well-typed core program is rejected by the compiler: %s\n%s"
+                       % (r.get("stderr", "")[-300:], r["proj"]["files"]["main.ms"][:500]),
+                       {"program": r["proj"]["files"]["main.ms"], "stderr": r.get("stderr", ""), "how": "mscript run main.ms -q"})
     from . import programs
     cbase = ctx.mktemp()
+
+    def one_src(src):
+        d = programs.materialize({"files": {"main.ms": src}}, cbase)
+        return programs.run_bin(binary, ["run", "main.ms", "-q"], d)
+    nps = name_programs()
+    n_names = 0
+    for (group, n, form, src, exp), (rc, out, err) in zip(nps, programs.pmap(one_src, [c[3] for c in nps])):
+        n_names += 1
+        got = out.split("\n")[:-1]
+        if rc == 0 and got == exp:
+            continue
+        refused = rc != 0 and "Did not compile" in (out + err)      # diagnostics only: nothing was run
+        if group == "bigint-literal-shape" and refused:
+            continue        # the name is a literal of the language: refusing it as a name, with a diagnostic, is in order
+        ctx.report("identifier:" + group, "the identifier `%s` (%s) is %s: printed %r (exit %d), the language defines %r: %s"
+                   % (n, form, "refused" if refused else "misread", [] if refused else got, rc, exp, (out + err)[-300:].replace("\n", " ")),
+                   {"program": src, "expected": exp, "observed": got, "rc": rc, "stderr": err[-600:], "how": "mscript run main.ms -q"})
+    sps = string_programs()
+    n_strings = 0
+    for (form, src, exp), (rc, out, err) in zip(sps, programs.pmap(one_src, [c[1] for c in sps])):
+        n_strings += 1
+        got = out.split("\n")[:-1]
+        if rc != 0 or got != exp:
+            ctx.report("string-literal:" + form, "a string literal with escaped backslashes / quotes: printed %r (exit %d), the language defines %r: %s"
+                       % ([] if "Did not compile" in (out + err) else got, rc, exp, (out + err)[-300:].replace("\n", " ")),
+                       {"program": src, "expected": exp, "observed": got, "rc": rc, "stderr": err[-600:], "how": "mscript run main.ms -q"})
+    ctx.cov["identifier_programs"] = n_names
+    ctx.cov["string_literal_programs"] = n_strings
     cps = constant_programs(ctx.rng, 60 if ctx.quick() else 1500)
 
     def one_c(c):
@@ -105,7 +195,7 @@ def run(ctx):
             ctx.report("semantics:constant-expression", "literal-only expressions in value positions: printed %r (exit %d), the language defines %r: %s" % (got, rc, exp, (out + err)[-200:].replace("\n", " ")),
                        {"program": src, "expected": exp, "observed": got, "rc": rc, "how": "mscript run main.ms -q"})
     ctx.cov["constant_expression_programs"] = n_const
-    ctx.cov["evaluations"] = st["programs"] + n_const
+    ctx.cov["evaluations"] = st["programs"] + n_const + n_names + n_strings
     ctx.cov["distinct_nontrivial"] = len(set(r["proj"]["files"]["main.ms"] for r in results if r["status"] == "ran" and r.get("steps", 0) > 30))
     ctx.cov["rule"] = ("programs = all statement skeletons to nesting depth %d (each as a function body called with 3 data variants and at module level) "
                        "+ random well-typed Core programs (depth <= 3 and <= 5); non-trivial = distinct program whose real run executes > 30 instructions" % depth)
@@ -119,5 +209,5 @@ def run(ctx):
                                "hooks H1/H3", "generator vlib/coregen.py renders one tree as .ms text and as model input"]
     ctx.assumptions = ["the reference semantics Lang/Eval.v is the formal reading of the language semantics",
                        "simulation theorems cover the expression fragment; statement-level agreement is established by the T1/T2/T3 correspondences"]
-    spec_failed = any(v[0].startswith("semantics:") for v in ctx.viol)
+    spec_failed = any(v[0].startswith(("semantics:", "identifier:", "string-literal:", "valid-program-rejected")) for v in ctx.viol)
     core.proof_or_search(ctx, ok, ["C01 obligations"], spec_failed)
